@@ -118,6 +118,8 @@ struct Inst {
 	bool plansUsed = false;
 
 	Inst() { for (auto& e : entered) e = false; for (auto& a : addr) a = nullptr; for (auto& p : planExists) p = false; for (int i = 0; i < HV_NS; ++i) markS[i] = markF[i] = false; }
+	// plan.clear() of a region also wipes the success/failure marks of every state in the region's id range
+	void clearMarksOfRegion(int region) { if (region < 0 || region >= HV_REGION_COUNT) return; const int head = regionHead(region); for (int s2 = head; s2 < head + node(head).size && s2 < HV_NS; ++s2) markS[s2] = markF[s2] = false; }
 	void clearPlanBook() { degeneratePlanDest = false; for (auto& p : planExists) p = false; for (int i = 0; i < HV_NS; ++i) markS[i] = markF[i] = false; }
 	~Inst() { destroy(); HV_UNPOISON(storage, sizeof storage); HV_UNPOISON(storage2, sizeof storage2); }
 	void build(uint8_t fill, bool withLogger = true) {
@@ -242,7 +244,7 @@ struct Walker {
 			// marks set while transitions are being processed are not consumed by this step's plan update
 			if ((e.kind == E_ACT_SUCCEED || e.kind == E_ACT_FAIL) && (inRound || !in.inUpdateOrReact)) in.outstandingMarks = true;
 			// C06 bookkeeping outside update()/react(): marks stay until their state exits or the next update()/react() consumes them
-			if (!in.inUpdateOrReact) { if (e.kind == E_ACT_SUCCEED) in.markS[e.a] = true; if (e.kind == E_ACT_FAIL) in.markF[e.a] = true; if (e.kind == E_CB && e.method == (uint8_t) Method::EXIT && e.a == 0) in.markS[e.state] = in.markF[e.state] = false; } } }
+			if (!in.inUpdateOrReact) { if (e.kind == E_ACT_PLAN && e.method == 255) in.clearMarksOfRegion(e.a); if (e.kind == E_ACT_SUCCEED) in.markS[e.a] = true; if (e.kind == E_ACT_FAIL) in.markF[e.a] = true; if (e.kind == E_CB && e.method == (uint8_t) Method::EXIT && e.a == 0) in.markS[e.state] = in.markF[e.state] = false; } } }
 		// C11: library assertions
 		auto& b = hv::breaks();
 		if (b.count) {
@@ -663,7 +665,7 @@ void Walker::step(const Op& o, size_t index) {
 		in.outstandingMarks = true;
 		afterCall(in, what, true); break; }
 	case OP_PLAN_APPEND: { in.plansUsed = true; planAppend(f, x, o.a0, o.a1, o.a2, o.a2 >> 3, (o.flags & 2) != 0); for (int i = 0; i < x.n; ++i) if (x.tr[i].kind == E_ACT_PLAN && x.tr[i].f > 0.5f) in.planExists[x.tr[i].a] = true; afterCall(in, what, true); break; }
-	case OP_PLAN_CLEAR: f.plan((RegionID) (o.a0 % HV_REGION_COUNT)).clear(); afterCall(in, what, true); break;
+	case OP_PLAN_CLEAR: f.plan((RegionID) (o.a0 % HV_REGION_COUNT)).clear(); in.clearMarksOfRegion(o.a0 % HV_REGION_COUNT); afterCall(in, what, true); break;
 	case OP_PLAN_REMOVE: { auto p = f.plan((RegionID) (o.a0 % HV_REGION_COUNT)); int k = 0; for (auto it = p.begin(); it; ++it, ++k) if ((o.a1 >> (k % 8)) & 1) it.remove(); afterCall(in, what, true); break; }
 	case OP_RESET: {
 		LIB(f.reset()); afterCall(in, what, true);
@@ -800,6 +802,8 @@ void Walker::judgeHistory(Inst& in, const char* what, const std::vector<Round>& 
 	}
 	bool same = prev.count() == expect.size();
 	for (unsigned i = 0; same && i < prev.count(); ++i) same = (int) prev[i].type == expect[i].type && (int) prev[i].destination == expect[i].dest;
+	// requests issued by plan tasks are only visible through the logger: with the logger detached and plans in play a guard-less round cannot be told
+	if (!same && !in.loggerOn && in.plansUsed && rs.empty()) { st.cls("history_steps_not_observable_logger_off"); same = true; expect.clear(); etags.clear(); for (unsigned i = 0; i < prev.count(); ++i) { expect.push_back(Req{(int) prev[i].type, (int) prev[i].destination}); etags.push_back(tagOf(prev[i])); } }
 	if (!same) {
 		std::ostringstream o; o << "previousTransitions() after " << what << " (step " << S.stepNo << ") holds";
 		for (unsigned i = 0; i < prev.count(); ++i) o << " " << TTN[(int) prev[i].type % 7] << "->" << (int) prev[i].destination;
@@ -884,6 +888,7 @@ void Walker::judgePlans(Inst& in, const std::vector<std::vector<PTask>>& before,
 	bool succ[HV_NS], failm[HV_NS]; for (int s = 0; s < HV_NS; ++s) { succ[s] = in.markS0[s] && wasActive[s]; failm[s] = in.markF0[s] && wasActive[s]; }
 	bool stepSucc[HV_NS] = {false}, stepFail[HV_NS] = {false}; int reporters = 0, lastReporter = -1; bool anyRequest = false, anyPlanEdit = false;
 	for (int i = 0; i < firstRound; ++i) { const Ev& e = x.tr[i];
+		if (e.kind == E_ACT_PLAN && e.method == 255 && e.a >= 0 && e.a < HV_REGION_COUNT) { const int head = regionHead(e.a); for (int s2 = head; s2 < head + node(head).size && s2 < HV_NS; ++s2) succ[s2] = failm[s2] = false; } // plan.clear() wipes the marks of the region's states
 		if (e.kind == E_ACT_SUCCEED) { succ[e.a] = true; if (!stepSucc[e.a] && !stepFail[e.a]) { ++reporters; lastReporter = e.a; } stepSucc[e.a] = true; }
 		if (e.kind == E_ACT_FAIL) { failm[e.a] = true; if (!stepSucc[e.a] && !stepFail[e.a]) { ++reporters; lastReporter = e.a; } stepFail[e.a] = true; }
 		if (e.kind == E_LOG_TASK && e.state >= 0 && e.state < HV_NS) { if (e.b == 0) succ[e.state] = true; else failm[e.state] = true; } // includes results passed on by planSucceeded/planFailed
